@@ -23,10 +23,17 @@ import (
 	"golang.org/x/tools/go/ssa"
 )
 
-const (
-	repoDir  = "/repo"
-	rootPath = "github.com/gopatchy/bkl"
-)
+const rootPath = "github.com/gopatchy/bkl"
+
+// repoDir: the tree under test. Always /repo for the registered checks;
+// BKLSYM_REPO points the engine at a scratch copy when a seeded change is
+// tried out without touching /repo.
+var repoDir = func() string {
+	if d := os.Getenv("BKLSYM_REPO"); d != "" {
+		return d
+	}
+	return "/repo"
+}()
 
 // verifDir: where harnesses, known findings, evidence and replays live
 // (/verif, or a snapshot of it when started through run.sh from elsewhere).
